@@ -206,7 +206,8 @@ class JavaRenderer:
             sl, sc = e.tok(x[1][1], glue=not first)
             e.tok("::", glue=True)
             ml, mc = e.tok(x[2], glue=True)
-            self.events[idx] = {"e": "mref", "exprText": x[1][1], "methodName": x[2], "startLine": sl, "startCol": sc,
+            # the listener positions the reference at the method's name
+            self.events[idx] = {"e": "mref", "exprText": x[1][1], "methodName": x[2], "startLine": ml, "startCol": mc,
                                 "stopLine": ml, "stopCol": mc}
             if self.calls is not None:
                 self.calls.append({"kind": "mref", "name": x[2], "line": ml, "col": mc})
@@ -373,6 +374,8 @@ class JavaRenderer:
             fn["startLine"] = nl_
             startcol = nc
         fn["nameLine"], fn["nameCol"] = nl_, nc
+        # the full listener positions a class method at its name (line and column), everything else at the declaration's first token
+        fn["fullStartLine"] = nl_ if (m["kind"] == "method" and not is_iface) else fn["startLine"]
         params = [[gtext(p["type"]), p["name"]] for p in m["params"]]
         amodel = [anno_model(a) for a in m.get("annos", [])]
         if m["kind"] == "ctor":
@@ -382,7 +385,7 @@ class JavaRenderer:
                     "startLine": fn["startLine"], "startCol": startcol}
         else:
             head = {"e": "enterMethod", "name": m["name"], "ret": gtext(m["ret"]), "annos": amodel, "params": params, "emptyParams": not params,
-                    "startLine": fn["startLine"], "nameCol": nc}
+                    "startLine": nl_, "nameCol": nc}
         self.events.append(head)
         e.tok("(", glue=True)
         for i, p in enumerate(m["params"]):
